@@ -44,6 +44,7 @@ pub(crate) fn same_bytes(x: &[u8], y: &[u8]) -> bool {
 // @props C15 C06
 // @fns StringSlice::<usize>::new, StringSlice::as_str (what KString::with_bounds runs for s[i] / s[a..b] on a freshly built string)
 // @bound strings of <= 3 characters from {a, U+00E9, U+5B57} (<= 9 bytes), bounds a, b <= 12 without any caller precondition
+// @timeout 1800
 #[kani::proof]
 #[kani::unwind(12)]
 fn c15_slice_new() {
@@ -78,6 +79,7 @@ fn c15_slice_new() {
 // @fns StringSlice::<usize>::with_bounds, StringSlice::<u16>::with_bounds, StringSlice::try_convert, StringSlice::as_str
 // @bound base slice = any valid sub-slice of a string of <= 3 characters from {a, U+00E9, U+5B57}; relative bounds a <= 12, b <= base length (the caller precondition KRange::indices establishes, see c01_range_indices)
 // @assume relative end <= length of the base slice (established by every in-repo caller through KRange::indices(len))
+// @timeout 1800
 #[kani::proof]
 #[kani::unwind(12)]
 fn c15_slice_with_bounds() {
@@ -127,6 +129,7 @@ fn c15_slice_with_bounds() {
 // @fns StringSlice::<usize>::split, StringSlice::<u16>::split (used by KString::pop_front / pop_back)
 // @bound base slice = any valid sub-slice of a string of <= 3 characters; offset <= base length (what pop_front/pop_back pass: a grapheme length)
 // @assume offset <= length of the slice (callers pass the length of a grapheme of the slice)
+// @timeout 1800
 #[kani::proof]
 #[kani::unwind(12)]
 fn c15_slice_split() {
